@@ -322,6 +322,8 @@ class C06:
         # detail/bundle.hpp `BundleImpl` + utils::array_psum (SrcTieBundle), traits::lie of Eigen vectors / scalars / native
         # groups (SrcTieRn); static aggregator SmoothProps/C06All.lean (imports C06, C06Layout and both tie files)
         self.props_files += ['SmoothProps/SrcTieBundle.lean', 'SmoothProps/SrcTieRn.lean']
+        # C06 in rounded arithmetic (standard model): Bundles add no arithmetic, Tn as the additive group (static file)
+        self.props_files += ['SmoothProps/C06Round.lean']
         self.props_module = 'SmoothProps.C06All'
         self.lean_targets.append('SmoothProps.C06All')
 
